@@ -47,12 +47,13 @@ struct Observed { std::vector<long> vals; bool ended = false, threw = false; lon
 // event-driven consumer: a callback awaiter on the future returned by the aggregate; its handler runs inline in whichever thread lets
 // a source reach its next yield and asks the aggregate for the next value from there
 template <typename G> struct CbAggConsumer : cocls::awaiter {
-    G &gen; size_t limit; Observed &o; cocls::future<long> f; cocls::promise<void> done;
+    G &gen; size_t limit; Observed &o; cocls::future<long> f; cocls::promise<void> done; long argc = 1000;
     CbAggConsumer(G &g, size_t limit, Observed &o) : gen(g), limit(limit), o(o) { set_resume_fn([](cocls::awaiter *me, void *) noexcept -> cocls::suspend_point<void> { auto *c = static_cast<CbAggConsumer *>(me); c->record(); return c->pump(); }); }
     void record() { try { if (!f.has_value()) o.ended = true; else o.vals.push_back(f.value()); } catch (const vs::TestError &e) { o.threw = true; o.code = e.code; } }
     cocls::suspend_point<void> pump() {
         while (o.vals.size() < limit && !o.ended && !o.threw) {
-            f << [&] { return gen(); };
+            long arg = argc++; (void)arg;
+            f << [&] { if constexpr (G::arg_is_void) return gen(); else return gen(arg); };
             cocls::co_awaiter<cocls::future<long>> aw(f);
             if (aw.subscribe(this)) return {};
             record();
@@ -78,10 +79,12 @@ template <typename G> void consume_normal(G &gen, const int *style, size_t limit
     }
 }
 template <typename G> cocls::async<void> consume_coro(G &gen, const int *style, size_t limit, Observed &o) {
+    long argc = 1000;
     for (size_t i = 0; o.vals.size() < limit && !o.ended && !o.threw; i++) {
+        long arg = argc++; (void)arg;
         try {
-            if (style[i % 8] % 2 == 0) { bool ok = co_await gen.next(); if (!ok) o.ended = true; else o.vals.push_back(gen.value()); }
-            else { auto f = gen(); try { o.vals.push_back(co_await f); } catch (const cocls::await_canceled_exception &) { o.ended = true; } }
+            if (style[i % 8] % 2 == 0) { bool ok; if constexpr (G::arg_is_void) ok = co_await gen.next(); else ok = co_await gen.next(arg); if (!ok) o.ended = true; else o.vals.push_back(gen.value()); }
+            else { auto f = [&] { if constexpr (G::arg_is_void) return gen(); else return gen(arg); }(); try { o.vals.push_back(co_await f); } catch (const cocls::await_canceled_exception &) { o.ended = true; } }
         } catch (const vs::TestError &e) { o.threw = true; o.code = e.code; }
     }
 }
@@ -89,7 +92,8 @@ template <typename G> cocls::async<void> consume_coro(G &gen, const int *style, 
 
 void dsim_scenario() {
     nsrc = dsim::choose(6);
-    int mode = dsim::choose(4);      // 0 normal code, 1 coroutine consumer, 2 sources with argument, 3 event-driven consumer (callback awaiter)
+    int mode = dsim::choose(4);      // 0 normal code, 1 coroutine consumer, 2 sources with argument (normal code), 3 event-driven consumer (callback awaiter)
+    bool with_arg = mode == 2 || dsim::choose(3) == 2;     // sources with argument under every consumer
     int style[8]; for (int &s : style) s = dsim::choose(3);
     std::vector<long> exp_count(nsrc, 0); int thrower = -1, thrower2 = -1; size_t total = 0; int nthrow = 0;
     for (int s = 0; s < nsrc; s++) {
@@ -106,7 +110,7 @@ void dsim_scenario() {
         total += exp_count[s];
     }
     size_t limit = (dsim::choose(4) == 3 && total) ? dsim::choose((unsigned)total) : 100000;
-    dsim::plan_note("sources=%d mode=%d limit=%zu", nsrc, mode, limit);
+    dsim::plan_note("sources=%d mode=%d arg=%d limit=%zu", nsrc, mode, (int)with_arg, limit);
     for (int s = 0; s < nsrc; s++) { dsim::plan_note(" S%d:", s); for (int k = 0; k < scripts[s].n; k++) dsim::plan_note("%c", "YaTR"[scripts[s].kind[k]]); }
     std::thread helper([&] {
         for (;;) {
@@ -118,16 +122,19 @@ void dsim_scenario() {
     });
     Observed o;
     {
-        if (mode == 2) {
+        auto drive = [&](auto &agg) {
+            if (mode == 1) consume_coro(agg, style, limit, o).join();
+            else if (mode == 3) { CbAggConsumer<std::remove_reference_t<decltype(agg)>> c(agg, limit, o); cocls::future<void> fin; c.done = fin.get_promise(); c.pump().clear(); fin.wait(); }
+            else consume_normal(agg, style, limit, o);
+        };
+        if (with_arg) {
             std::vector<cocls::generator<long, long>> gens; for (int s = 0; s < nsrc; s++) gens.push_back(source_arg(s));
             auto agg = cocls::generator_aggregator(std::move(gens));
-            consume_normal(agg, style, limit, o);
+            drive(agg);
         } else {
             std::vector<cocls::generator<long>> gens; for (int s = 0; s < nsrc; s++) gens.push_back(source(s));
             auto agg = cocls::generator_aggregator(std::move(gens));
-            if (mode == 1) consume_coro(agg, style, limit, o).join();
-            else if (mode == 3) { CbAggConsumer<decltype(agg)> c(agg, limit, o); cocls::future<void> fin; c.done = fin.get_promise(); c.pump().clear(); fin.wait(); }
-            else consume_normal(agg, style, limit, o);
+            drive(agg);
         }
         // aggregate destroyed here: blocks until in-flight asynchronous sources have delivered
     }
@@ -146,7 +153,7 @@ void dsim_scenario() {
         if (thrower >= 0) { if (!o.threw || (o.code != thrower && o.code != thrower2)) dsim::fail("C14.exception", "source %d throws; consumer saw threw=%d code=%ld ended=%d", thrower, (int)o.threw, o.code, (int)o.ended); }
         else if (!o.ended || o.threw) dsim::fail("C14.end", "all sources ended; consumer saw ended=%d threw=%d", (int)o.ended, (int)o.threw);
     } else if (o.vals.size() != limit || o.ended) dsim::fail("C14.end", "consumer asked for %zu of %zu values, got %zu, ended=%d", limit, total, o.vals.size(), (int)o.ended);
-    if (mode == 2 && !o.vals.empty()) {
+    if (with_arg && !o.vals.empty()) {
         // first call: every source receives its argument; call k (k>=1): the source whose value call k-1 returned
         std::vector<long> idx(nsrc, 1);
         for (int s = 0; s < nsrc; s++) if (dsim::cell_get(NARGS + s) < 1 || dsim::cell_get(ARGS + 20 * s) != 1000) dsim::fail("C14.argument", "source %d did not receive the argument of the first call (got %ld values, first %ld)", s, dsim::cell_get(NARGS + s), dsim::cell_get(ARGS + 20 * s));
